@@ -1,0 +1,7 @@
+//go:build !verif
+
+package mount
+
+import "github.com/hack-pad/hackpadfs"
+
+func verifStep(string, hackpadfs.FS) {}
